@@ -36,6 +36,8 @@ type script struct {
 	Enabled []bool  `json:"enabled"`
 	Steps   []step  `json:"steps"`
 	StartTimeoutMs int `json:"startTimeoutMs"` // > 0: shortened module start timeout (for "expire" steps)
+	StopTimeoutMs  int   `json:"stopTimeoutMs"` // > 0: shortened module stop timeout
+	Overstay       []int `json:"overstay"`      // modules whose start routine leaves a worker behind that ignores its context
 	Eager   bool    `json:"eager"` // issue the next API call as soon as the previous one has returned, even if the
 	// script (the model) expected callbacks to finish first: an early return is then followed by the next call
 }
@@ -51,6 +53,8 @@ type parked struct {
 	ch chan outcome
 	at time.Time
 }
+
+var overstayRelease = make(chan struct{})
 
 var (
 	tr      *vio.Trace
@@ -256,7 +260,21 @@ func main() {
 		}
 		m := modules.Register(name(i),
 			func() error { return gate(i, "prep") },
-			func() error { return gate(i, "start") },
+			func() error {
+				err := gate(i, "start")
+				if err == nil {
+					for _, o := range sc.Overstay {
+						if o == i {
+							// a worker that does not look at its context: the stop of this module runs into its timeout
+							mods[i-1].StartWorker("overstay", func(context.Context) error {
+								<-overstayRelease
+								return nil
+							})
+						}
+					}
+				}
+				return err
+			},
 			func() error { return gate(i, "stop") },
 			dn...)
 		mods = append(mods, m)
@@ -270,8 +288,15 @@ func main() {
 		}
 	}
 
-	if sc.StartTimeoutMs > 0 {
-		modules.VerifSetTimeouts(time.Duration(sc.StartTimeoutMs)*time.Millisecond, 30*time.Second)
+	if sc.StartTimeoutMs > 0 || sc.StopTimeoutMs > 0 {
+		startT, stopT := 2*time.Minute, 30*time.Second
+		if sc.StartTimeoutMs > 0 {
+			startT = time.Duration(sc.StartTimeoutMs) * time.Millisecond
+		}
+		if sc.StopTimeoutMs > 0 {
+			stopT = time.Duration(sc.StopTimeoutMs) * time.Millisecond
+		}
+		modules.VerifSetTimeouts(startT, stopT)
 	}
 
 	const patience = 400 * time.Millisecond
